@@ -60,7 +60,7 @@ OPS = ["add_objects", "commit_tree", "porcelain_commit", "ref_set", "ref_cas",
        "pack_loose", "repack", "gc", "gc_default_grace", "prune",
        "index_write", "config_write", "commit_graph", "midx", "fetch_local",
        "tag_create", "branch_delete_packed", "two:commit+pack_refs",
-       "two:add_pack+gc"]
+       "two:add_pack+gc", "detach_head", "attach_head"]
 
 
 REDO_OPS = ("add_objects", "add_thin_pack", "add_pack", "fetch_local")
@@ -275,6 +275,12 @@ def run_op(name, r, sc, plan):
     elif name == "fetch_local":
         porcelain.fetch(r, sc.remote_path, errstream=io.BytesIO(),
                         outstream=io.BytesIO())
+    elif name == "detach_head":
+        # git checkout --detach <commit>, the ref part of it
+        porcelain.update_head(r, sc.hist["commits"][0].decode(),
+                              detached=True)
+    elif name == "attach_head":
+        porcelain.update_head(r, b"old")
     elif name == "tag_create":
         porcelain.tag_create(r, b"newtag", author=H.IDENT, message=b"m\n",
                              annotated=True, objectish=sc.hist["commits"][-1],
@@ -366,7 +372,11 @@ def check_image(img, sc, plan, allowed_refs, must_have, files_allowed, model,
                 out.append(("ref-unreadable", f"{n!r}: {type(e).__name__}: {e}"))
                 continue
             allowed = allowed_refs.get(n, {None})
-            if v not in allowed:
+            if v is None and n == b"HEAD" and None not in allowed:
+                # without HEAD the directory is not even a repository for git
+                out.append(("head-missing", f"allowed "
+                            f"{sorted(map(repr, allowed))}"))
+            elif v not in allowed:
                 out.append(("ref-neither-old-nor-new",
                             f"{n!r} = {v!r}, allowed {sorted(map(repr, allowed))}"))
             if v is not None:
